@@ -78,3 +78,8 @@ package xpub
 //@   before call:SetPrivate#1 assert p.p == pp && p.s == s
 //@
 // ---- end generated AddPipe contracts ----
+// ---- generated Info contracts (tools/gen_info_contracts.py) ----
+//@ func (*socket).Info
+//@   ensures result.Self == 32 && result.Peer == 33 && result.SelfName == "pub" && result.PeerName == "sub"
+//@
+// ---- end generated Info contracts ----
